@@ -11,6 +11,8 @@ RULE = ('cases = (a) every beamformer name accepted by get_bf_vector (parsed by 
         'per leading index, (c) every beamforming function on a stack of problems (0..2 extra leading axes) against its per-slice results, '
         '(d) phase_correction per leading index, (e) Souden / WMWF on singular and zero PSDs: finite, regular bins bit-identical to the '
         'same bins computed without singular neighbours; non-trivial = extra leading axes or singular bins present; distinct by (lane, name, D, F, lead)')
+REACH_REQUIRED = {'stable_solve: per-matrix lstsq fallback': ('math/solve.py', r'C\[i\], \*_ = np\.linalg\.lstsq\(A\[i\], B\[i\]\)'),
+                  'stable_solve: per-matrix solve after LinAlgError': ('math/solve.py', r'C\[i\] = np\.linalg\.solve\(A\[i\], B\[i\]\)')}
 DECIDING = ['C13.wrapper', 'C13.apply', 'C13.stack', 'C13.phase', 'C13.singular']
 MIN_DECIDED = {'quick': 300, 'thorough': 3000}
 ARM = ()
